@@ -18,6 +18,8 @@ URLS = [
     ('wss://secure.example.org/ws', 'secure.example.org', 443, '/ws'),
     ('wss://secure.example.org:8443', 'secure.example.org', 8443, '/'),
     ('ws://10.1.2.3:9001/a/b/', '10.1.2.3', 9001, '/a/b/'),
+    ('ws://[::1]:9000/v6', '::1', 9000, '/v6'),
+    ('wss://[2001:db8::7]/v6?x=1', '2001:db8::7', 443, '/v6?x=1'),
 ]
 
 
